@@ -677,7 +677,23 @@ class Threads(EngineBase):
             ok, _ = valid(name, out, vlo, v1)
             if not ok:
                 cur = self._eval(psutil, k, name)
-                V("C16.valid_value", [ctx], name, "thread %d: %s() -> %r is "
+                extra = []
+                older = [v for v in versions if v < vlo]
+                if older and valid(name, out, min(older), vlo - 1)[0]:
+                    extra.append("older_version_matches")
+                # a call of another thread that began before this window and
+                # was still running inside it (it may store into the cache
+                # late: memoize_when_activated's KeyError -> store window)
+                for t2, recs2 in enumerate(records):
+                    if t2 == t:
+                        continue
+                    for r2 in recs2:
+                        if r2.get("v0", 10 ** 9) < vlo <= r2.get(
+                                "v1", -1) and r2["op"]["op"] == "get":
+                            extra.append("other_thread_call_spans_block_"
+                                         "start")
+                V("C16.valid_value", [ctx] + extra, name,
+                  "thread %d: %s() -> %r is "
                   "not the answer for any kernel version in [%d, %d] "
                   "(current answer %r)" % (t, name, out[1], vlo, v1, cur[1]))
             else:
